@@ -5,7 +5,8 @@ SPEC = {
     "theorems": ["C25_updated_is_exact", "C25_result_is_load_result", "C25_reachable_copy_is_truth",
                  "C25_failed_notification", "C25_followed_deltas_consecutive", "C25_model_satisfies_spec",
                  "C25_injective_hash_gives_genuine", "C25_unfixed_refuted", "C25_gap_applied",
-                 "C25_nocopy_run_fails", "C25_taint_diverges", "C25_nonvacuous"],
+                 "C25_nocopy_run_fails", "C25_taint_diverges", "C25_nonvacuous",
+                 "C25_rewritten_history_refetched", "C25_rewritten_model_satisfies_spec", "C25_rewritten_nonvacuous"],
     "streams": [{
         "name": "updates", "bin": "c25", "check_module": "C25.Spec",
         "model_expr": "model_obs (c_cfg CASE) (c_steps CASE)",
